@@ -50,3 +50,16 @@ check('C15', 'refmodel', 'exploration', 'differential oracle: autograd gradients
 check('C16', 'contracts', 'exploration', 'independent module-tree walk compared with what the real registration did (names, identities, hook counts)',
       'Generated module trees x skip-pattern lists: the set and names of registered layers, hook counts on every module and parameter values are compared with an independent walk; GPT-NeoX variant by class name.',
       'Leaf = module without children; hook bookkeeping read from torch hook dictionaries.', 'DESIGN.md §3 C16')
+
+check('C01', 'refmodel', 'exploration', 'runtime value oracle: float64 re-solution of the damped Kronecker system from data captured at the API boundary',
+      'Generated models/configurations/dtypes: before/after gradients and state_dict factors of the real preconditioner are compared, layer by layer and step by step, '
+      'with the float64 solution V scaled by one fitted scalar; tolerance derived from measured conditioning (>= 8x head-room observed).',
+      'Factors are read from state_dict(); the clip formula itself is C07; low-precision cases with a loose bound are counted trivial.', 'DESIGN.md §3 C01')
+check('C02', 'simdist', 'exploration', 'differential/metamorphic oracle over real multi-rank executions on the simulated backend (rank-vs-rank, placement-vs-placement, union single-process)',
+      'For fixed model/data/hyper-parameters the real KFACPreconditioner runs on 2-8 simulated ranks under several placements and scheduler policies; gradients must be equal across ranks, '
+      'across placements and equal to single-process K-FAC on the union batch.',
+      'simdist asynchronous c10d semantics; DDP emulated by explicit averaging; ranks share one process.', 'DESIGN.md §3 C02')
+check('C05', 'refmodel', 'exploration', 'reference-model monitor: float64 K-FAC state machine in lock-step with the real preconditioner over generated histories',
+      'Histories of train/eval/scheduler/reset/checkpoint events with constant or callable intervals and hyper-parameters; after every step the step count, factors '
+      '(incl. bitwise-unchanged on non-update steps) and gradients must match the reference that preconditions with its snapshot.',
+      'Documented call discipline (accumulation_steps passes per step, checkpoints at boundaries); finite histories (<=40 quick, <=200 thorough).', 'DESIGN.md §3 C05')
